@@ -56,7 +56,8 @@ def _gen(key):
         fs = res.fs
         return {'key': key, 'status': res.status, 'reason': res.reason, 'paths': res.paths, 'vcs': vcs,
                 'file': fs.path if fs else None, 'span': list(fs.span) if fs else None, 'sha256': fs.sha if fs else None,
-                'inlined': res.inlined, 'notes': res.notes, 'gen_s': round(time.time() - t0, 2)}
+                'inlined': res.inlined, 'notes': res.notes, 'gen_s': round(time.time() - t0, 2),
+                'assumed_used': sorted(getattr(v, 'assumed_used', set()))}
     except TimeoutError as e:   # a function whose paths cannot be enumerated in the budget: undecided, never a violation
         return {'key': key, 'status': 'out_of_reach', 'reason': str(e), 'paths': 0, 'vcs': [], 'file': None, 'span': None,
                 'sha256': None, 'inlined': [], 'notes': [], 'gen_s': round(time.time() - t0, 2)}
